@@ -252,8 +252,8 @@ def run_tlc(module, cfg=None, workers=None, simulate=None, depth=None, env=None,
                 if line.startswith('"{') or line.startswith('"['):
                     try:
                         res.cases.append(json.loads(json.loads(line)))
-                    except Exception:
-                        pass
+                    except Exception as ex:
+                        res.unparsed = getattr(res, "unparsed", []) + [line[:400]]
         if res.rc not in (0, 12, 13) and res.error is None:
             # 12 = safety violation, 13 = liveness violation; anything else is infrastructure
             if "Parsing or semantic analysis failed" in res.out or "Error:" in res.out or res.rc != 0:
@@ -466,6 +466,8 @@ def validate_traces(module, events, nproc=None, cfg=None, timeout=1500, heap="3g
             for res in ex.map(work, list(enumerate(chunks))):
                 ress.append(res)
                 if res.error or res.rc != 0 or not res.cases:
+                    if getattr(res, "unparsed", None):
+                        raise InfraError("trace validation with %s: report line is not valid JSON: %s" % (module, res.unparsed[0]))
                     i = res.out.find("Error:")
                     raise InfraError("trace validation with %s failed (rc=%s %s)\n%s" % (module, res.rc, res.error, res.out[max(0, i - 200):i + 2500] if i >= 0 else res.out[-3000:]))
                 rep = res.cases[-1]
